@@ -59,8 +59,14 @@ type scenario struct {
 	Seed    uint64   `json:"seed,omitempty"`
 	Fails   []int    `json:"fails,omitempty"` // fail: processors whose ForceFlush / Shutdown report an error
 	Reg     int      `json:"reg,omitempty"`   // reader / rstorm: providers the reader was handed to
+	Nest    []nestJ  `json:"nest,omitempty"` // reent: which provider methods the re-entrant component calls from which callback
 	Slow    int      `json:"slow,omitempty"`  // metric: every Export of a periodic reader's exporter takes this many ms
 	BudgetMs int     `json:"budget_ms,omitempty"` // lstorm / mstorm: stop after this long (at least 20 rounds)
+}
+
+type nestJ struct {
+	CB   string `json:"cb"`   // shutdown onend flush (the callback of the re-entrant processor / exporter)
+	Call string `json:"call"` // unreg0 unreg1 reg2 flush shutdown handle (the provider method called from it)
 }
 
 type callJ struct {
@@ -842,6 +848,10 @@ func childMain() {
 			res = childFail(sc)
 		case "topt":
 			res = childTraceOpt(sc)
+		case "reent":
+			res = childReent(sc)
+		case "dslow":
+			res = childDSlow(sc)
 		}
 	}()
 	b, _ := json.Marshal(res)
@@ -1280,9 +1290,24 @@ func main() {
 	for i := 0; i < o.Count(70, 900); i++ {
 		scs = append(scs, genTraceOpt(r))
 	}
+	scs = append(scs,
+		// the processor's Shutdown unregisters itself / registers another / flushes / shuts down, re-entrantly
+		scenario{Kind: "reent", Kinds: []string{"trace"}, Nest: []nestJ{{"shutdown", "unreg0"}, {"shutdown", "reg2"}, {"shutdown", "flush"}, {"shutdown", "shutdown"}, {"shutdown", "handle"}},
+			Ops: []opJ{{K: "start"}, {K: "end"}, {K: "flush"}}},
+		scenario{Kind: "reent", Kinds: []string{"trace"}, Nest: []nestJ{{"onend", "shutdown"}, {"flush", "unreg0"}, {"onend", "reg2"}},
+			Ops: []opJ{{K: "start"}, {K: "flush"}, {K: "end"}, {K: "start"}}},
+		scenario{Kind: "reent", Kinds: []string{"log"}, Nest: []nestJ{{"shutdown", "shutdown"}, {"shutdown", "flush"}, {"onend", "handle"}}, Ops: []opJ{{K: "start"}, {K: "flush"}}},
+		scenario{Kind: "reent", Kinds: []string{"metric"}, Nest: []nestJ{{"shutdown", "flush"}, {"shutdown", "handle"}}, Ops: []opJ{{K: "start"}, {K: "flush"}}},
+	)
+	for i := 0; i < o.Count(60, 800); i++ {
+		scs = append(scs, genReent(r))
+	}
 	for i := 0; i < o.Count(12, 60); i++ {
 		k := vgen.Pick(r, append(append([]string{}, traceKinds[1:]...), logKinds...))
 		scs = append(scs, scenario{Kind: "dstorm", Kinds: []string{k}, N: o.Count(150, 1000), G: r.Range(2, 6), Seed: r.U64()})
+	}
+	for i := 0; i < o.Count(6, 40); i++ { // the provider's Shutdown overlapping a direct one, slow exporter (50-200 ms per export)
+		scs = append(scs, scenario{Kind: "dslow", Kinds: []string{[]string{"PBatch XMem", "PSimple XMem", "PBatch XMem"}[i%3]}, N: o.Count(4, 12), G: r.Range(2, 5), Slow: r.Range(50, 200), Seed: r.U64()})
 	}
 	for i := 0; i < o.Count(8, 40); i++ {
 		k := vgen.Pick(r, []string{"RManual", "RPeriodic XStd", "RPeriodic XStd", "RPeriodic XNil"})
@@ -1419,7 +1444,7 @@ func main() {
 			w.Violation("child process running the sequence crashed or panicked", desc)
 			continue
 		}
-		if sc.Kind == "dstorm" || sc.Kind == "rstorm" {
+		if sc.Kind == "dstorm" || sc.Kind == "rstorm" || sc.Kind == "dslow" {
 			total := 0
 			for _, rd := range oc.res.Rounds {
 				total += rd.Count
@@ -1444,6 +1469,11 @@ func main() {
 			stormRounds += total
 			stormPlanned += sc.N
 			w.Tally(fmt.Sprintf("%s:rounds", sc.Kind))
+			continue
+		}
+		if sc.Kind == "reent" {
+			desc["observed"] = oc.res
+			w.Add(reentCoq(sc, &oc.res), desc, kind, true)
 			continue
 		}
 		if sc.Kind != "storm" && len(oc.res.Obs) != len(sc.Ops) {
